@@ -17,5 +17,6 @@ CONSTANTS
   UseWindow = TRUE
   UseReopen = TRUE
   UseEpochs = TRUE
+  OccSet = {FALSE, TRUE}
   UseReaders = TRUE
 CHECK_DEADLOCK FALSE
